@@ -582,6 +582,42 @@ def sidecar_list_check(ctx):
         shutil.rmtree(folder, ignore_errors=True)
 
 
+def sidecar_edit_check(ctx):
+    """E2 on one Sidecar object: it is used for a table, edited in place (an entry of an existing column gets, loses or changes
+    its annotation), and used again: the rows are those of a sidecar read from the edited document."""
+    from hed.models.tabular_input import TabularInput
+    from hed.models.sidecar import Sidecar
+    rec = ctx.rec
+    start = {"tt": {"HED": {"go": "Red, {val}", "stop": "Square"}}, "val": {"Description": "a value, not annotated"},
+             "HED": {"Description": "free annotations"}}
+    edits = {
+        "annotate-val": lambda d: d.__setitem__("val", {"HED": "Label/#"}),
+        "val-other-template": lambda d: d.__setitem__("val", {"HED": "ID/#"}),
+        "unannotate-val": lambda d: d.__setitem__("val", {"Description": "again without annotation"}),
+        "tt-without-reference": lambda d: d["tt"]["HED"].__setitem__("go", "Green"),
+        "tt-level-added": lambda d: d["tt"]["HED"].__setitem__("stop", "(Blue, {val})"),
+    }
+    for hist in (h for n in (1, 2, 3) for h in itertools.permutations(edits, n)):
+        rec.n("evaluations")
+        rec.n("transitions", len(hist))
+        rec.n("distinct_nontrivial")
+        rec.state(("sidecar-edit", tuple(sorted(hist))))
+        try:
+            sc = Sidecar(io.StringIO(json.dumps(start)))
+            list(TabularInput(io.StringIO(RESET_TABLE), sidecar=sc).series_a)
+            for step, name in enumerate(hist):
+                edits[name](sc.loaded_dict)
+                got = list(TabularInput(io.StringIO(RESET_TABLE), sidecar=sc).series_a)
+                want = list(TabularInput(io.StringIO(RESET_TABLE), sidecar=Sidecar(io.StringIO(json.dumps(sc.loaded_dict)))).series_a)
+                if got != want:
+                    rec.violation("C06:history:sidecar-edited-in-place:rows-differ-from-a-sidecar-read-from-the-document",
+                                  history=list(hist[:step + 1]), document=json.dumps(sc.loaded_dict), expected=want, got=got)
+                    break
+        except Exception as e:
+            rec.violation("C06:history:sidecar-edit-raises:" + type(e).__name__, history=list(hist), error=repr(e)[:200])
+        rec.outcome("sidecar-edit")
+
+
 def run(ctx):
     ncases = sum(1 for _ in build_cases(ctx.thorough))
     ctx.rec.notes["bounds"] = {"sidecars": ncases, "reference_positions": REF_POSITIONS, "two_reference_templates": TWO_REFS,
@@ -589,6 +625,7 @@ def run(ctx):
     ctx.parallel(worker, ctx.thorough, ctx.seed)
     mapper_reset_check(ctx)
     sidecar_list_check(ctx)
+    sidecar_edit_check(ctx)
     ctx.rec.counts["states"] = len(ctx.rec.states)
     ctx.rec.notes["observed_dtype_drift"] = ctx.rec.counts.get("observed_dtype_drift", 0)
 
